@@ -20,7 +20,7 @@ CLAIMED = {
              "reach lies in a wrapper's call closure (std::terminate). Structural rules decide the bounded "
              "string copy incl. len = 0, same-stem unmodified forwarding of every calculation wrapper (bit "
              "identity by construction), error-code mapping and handler order, enum mirrors, free = delete. "
-             "Setter/getter round trip is decided as equality of the written and read access paths.",
+             "Setter/getter round trip is decided as equality of the written and read access paths. Second session (X7): no extern C definition ignores one of its parameters.",
         note=TRUST + "A1 allocation failure excluded; A2 external callees behave as classified (classification "
              "printed in the evidence); Eigen assertions compiled out (NDEBUG). Bit-identity is decided as "
              "forwarding, not measured.",
@@ -54,7 +54,7 @@ CLAIMED["C16"] = dict(
          "that comparison (conjuncts are split; a further condition that narrows the documented one is reported) "
          "with the documented class, in a function the constructors/calculators call on every "
          "path; the program's exit status is EXIT_FAILURE after a caught error and equals have_problem() in "
-         "the MSSM; the writer runs only after the reader returned; the C error codes map the classes.",
+         "the MSSM; the writer runs only after the reader returned; the C error codes map the classes. Second session (V5): tachyon detection tests the minimum over all squared masses of a sector, before sqrt(|m^2|), in the MSSM and the THDM.",
     note=TRUST + "The list of documented conditions is frozen in the checker (rules_c16.DOCUMENTED). Not decided: "
          "that a result reported without error/problem/warning is a finite number (numerical).",
     ref="3 C16, Appendix A")
@@ -120,7 +120,7 @@ CLAIMED["C13"] = dict(
          "name; unknown keys write nothing; the matrix/vector block readers write their output only entry by entry from the "
          "data lines (an entry a block does not name keeps the value of earlier blocks); configuration fields only through the validating readers with the "
          "README's ranges. A key swapped between two generations or a PDG code mapped to the wrong mass is "
-         "invisible to tests that use symmetric points; here it is a table mismatch.",
+         "invisible to tests that use symmetric points; here it is a table mismatch. Second session: a parsed 64-bit integer is not narrowed without a range test (K7); every block at the model scale is read inside the loop over all blocks of the name (K4).",
     note=TRUST + "specs/slha_keys.py is the independent table (each row's keyword is checked against the "
          "repository's documentation; a mismatch makes the check inconclusive, not passing). Not decided: "
          "SLHAea's tokeniser (comments, whitespace, order of blocks).",
@@ -139,7 +139,7 @@ CLAIMED["C05"] = dict(
          "default SM constants are never read outside constructors; in convert_Mu_M1_M2 pole-multiplet indices "
          "subscript only pole arrays and tree-level indices only the model's arrays (incl. the argument of the "
          "convergence measure). A slip in any of these yields a silently "
-         "wrong fit only on rare inputs (level crossings, stalled iterations, MZ different from the default).",
+         "wrong fit only on rare inputs (level crossings, stalled iterations, MZ different from the default). Second session: state selectors read a mixing matrix only through moduli (R8); the requested precision and iteration cap reach every fitting routine unchanged, also from the C entry points (R9); once a sector is fitted no later statement overwrites an input of its mass matrix without a re-fit (R10; one recorded finding: the final Yukawa update after the smuon fit); a pole mixing matrix is filled only together with its pole masses (R11); a derived index is not captured by value (R4).",
     note=TRUST + "Not decided: that the fitted spectrum numerically reproduces the pole masses within the goal, "
          "and parameter recovery from perturbed guesses (conditioning).",
     ref="3 C05")
@@ -172,7 +172,7 @@ CLAIMED["C20"] = dict(
          "running-mass routines are applied under exactly running_couplings && scale > 0 to the third "
          "generation and are called nowhere else; a failed Lambda_QCD bracket is caught, warned about and "
          "leaves the default; the running-mass code keeps no writable static storage (its results are functions "
-         "of the arguments only, a precondition of composable running).",
+         "of the arguments only, a precondition of composable running). Second session: every asin/acos of the Wolfenstein conversion has an argument in [-1,1] by interval arithmetic or a dominating rejection (R2b); each running mass is one power law in the scale, splits must be continuous (R7); alpha_s(Q; Lambda_QCD) is evaluated only under an early exit for Lambda_QCD >= Q (R8).",
     note=TRUST + "Not decided: positivity, monotonicity, boundary values and composition of the running masses "
          "(numerical); floating-point unitarity to 1e-14 (the algebraic formula is exact).",
     ref="3 C20")
@@ -210,7 +210,7 @@ CLAIMED["C08"] = dict(
          "reductions), with alpha = atan(tan beta) - asin(sin(beta-alpha)). Goldstones are moved to index 0 by "
          "MZ/MW after all sectors; the reported sin/cos(beta-alpha) come from the one normalised alpha_h, which is asin(ZH(1,1)) shifted by "
          "-+pi exactly when beta - alpha_h leaves [-pi/2, pi/2] (case analysis of the folded getter); the CKM "
-         "matrix enters the up-type Yukawa matrices only through its adjoint.",
+         "matrix enters the up-type Yukawa matrices only through its adjoint. Second session (R7): the reported mixing angle is the angle of the heavy CP-even eigenvector for every sign convention the diagonalisation contract allows (atan2 / atan of both components); a single-component inverse function is rejected -- this found the alpha_h defect named in the property text, now repaired.",
     note=TRUST + "The 2HDM potential (arXiv:2110.13238 Eq.(1)) is written in rules_c08.spec. Not decided: the value "
          "of alpha_h read back from the numerical eigenvector (the property text records a defect there away "
          "from alignment: it depends on the eigen-solver's sign convention), SM fermion masses / CKM through "
@@ -288,7 +288,7 @@ CLAIMED["C11"] = dict(
          "comparisons do not count; argument relations used by guards (xu/yu = xd/yd) hold "
          "as identities at the call sites; caller contracts of the internal helpers (sorted arguments, "
          "lambda^2 > 0) are verified on the call graph; tan(2 alpha), which keeps its pole at MA = MZ, is used "
-         "only through its reciprocal (abstract IEEE value of the result: finite).",
+         "only through its reciprocal (abstract IEEE value of the result: finite). Second session: after a pole-avoiding shift nothing is computed from the pre-shift value (R9); the test that selects the lambda^2 -> 0 limit of Phi/lambda^2 is scale-free (R6s).",
     note=TRUST + "NOT decided: the 1% continuity band as a number, the accuracy of the alternative formulas in the "
          "equal-argument branches (series coefficients: C01/C02), cancellations that lose precision without a "
          "vanishing denominator, functions the evaluator cannot fold (loops over Eigen arrays in the MSSM "
@@ -314,7 +314,7 @@ CLAIMED["C01"] = dict(
          "kernels of Li2 on [0,1/2] and of Cl2 on (0,pi/2), [pi/2,pi], with their coefficients rounded to "
          "double, are within 1.5e-15 / 6e-18 / 5e-17 of the series (rigorous bounds in exact rational "
          "arithmetic); 2 pi enters the Cl2 reflection accurate to 1e-19; the complex series has the "
-         "Bernoulli coefficients and a remainder below 2e-15. These hold for all arguments, not for sampled ones.",
+         "Bernoulli coefficients and a remainder below 2e-15. These hold for all arguments, not for sampled ones. Second session (K5): the distance of the Cl2 argument to the nearest multiple of pi (a zero of Cl2) is computed with constants whose exact sum is pi to 1e-29, a short leading constant and fused products; no reduction by a 53-bit 2 pi.",
     note=TRUST + "NOT decided: floating-point rounding of the kernel evaluation itself (a few ulp, not bounded here); "
          "the geometry of the complex dilogarithm's transformations (|u| <= 1.26 is taken from the region "
          "|z| <= 1, Re z <= 1/2); the three real regimes of f_PS against its complex definition; rounding for "
@@ -359,7 +359,7 @@ CLAIMED["C03"] = dict(
          "assume; calculate_amu_1loop(THDM) fills each struct field from the matching getter; the twelve Yukawa "
          "getters follow the documented (h, H, A, H+) pattern entry by entry with masses and rho_f taken at their own "
          "Higgs mass. A sign, index, conjugation or convention slip confined to e.g. negative M1 or to "
-         "generation-off-diagonal couplings breaks the identity for all inputs at once.",
+         "generation-off-diagonal couplings breaks the identity for all inputs at once. Later in the session: M4 (operations that rewrite inputs of the chi0/chi+-/smuon/sneutrino mass matrices recompute those sectors), T4 (no run-time initialised static in the one-loop units), special cases for vanishing couplings must equal the general formula at that point.",
     note=TRUST + "NOT decided: the numerical agreement to 1e-8 with an independently diagonalised evaluation -- it "
          "rests on the eigen-solvers (C12, not applicable) and on the loop functions (C01); the decomposition contracts "
          "are taken from the documentation of gm2_linalg.hpp. The specification itself is part of the trusted base "
